@@ -661,9 +661,20 @@ impl CrashEnum {
             .stderr(std::process::Stdio::null())
             .status();
         let rec: Option<Recovered> = std::fs::read(&out).ok().and_then(|b| serde_json::from_slice(&b).ok());
-        let ok_exit = st.map(|s| s.success()).unwrap_or(false);
+        let ok_exit = st.as_ref().map(|s| s.success()).unwrap_or(false);
         let Some(rec) = rec else {
-            o.fail("crash:recover-process-died", format!("the recovering process died without a result (exit ok: {ok_exit}) after crash point {} ({class}) in mode {:?}", case.k, case.mode));
+            // A recovery that takes the process down (abort, segfault, stack overflow, a panic that
+            // escapes) is a violation; a child that could not be started or was killed from outside
+            // is the harness's problem.
+            use std::os::unix::process::ExitStatusExt;
+            let crashed = st.as_ref().map(|s| matches!(s.signal(), Some(libc::SIGSEGV | libc::SIGABRT | libc::SIGBUS | libc::SIGILL | libc::SIGFPE)) || s.code() == Some(101)).unwrap_or(false);
+            if !crashed {
+                o.inconclusive = true;
+                o.label(format!("recover-child-left-no-result:{st:?}"));
+                let _ = std::fs::remove_dir_all(&dir);
+                return PointVerdict { outcome: o, class };
+            }
+            o.fail("crash:recover-process-died", format!("the recovering process died without a result (exit ok: {ok_exit}, status {st:?}) after crash point {} ({class}) in mode {:?}", case.k, case.mode));
             let _ = std::fs::remove_dir_all(&dir);
             return PointVerdict { outcome: o, class };
         };
@@ -753,7 +764,16 @@ impl Part for CrashEnum {
             std::fs::write(&case_path, serde_json::to_vec(&history).unwrap()).expect("case");
             let st = Command::new(&exe).arg("child-run").arg(&case_path).arg(&root).arg("count").arg("0").arg("0").arg("0").stdout(std::process::Stdio::null()).stderr(std::process::Stdio::null()).status();
             let trace = parse_trace(&std::fs::read_to_string(format!("{}.trace", root.display())).unwrap_or_default());
-            if st.map(|s| s.code()).ok().flatten() != Some(0) || trace.is_empty() {
+            let code = st.map(|s| s.code()).ok().flatten();
+            if code != Some(0) && !matches!(code, Some(3) | Some(4)) {
+                // the child could not run at all (spawn failure, killed from outside): not a verdict
+                let mut o = Outcome::pass();
+                o.inconclusive = true;
+                o.label(format!("count-run-exit:{code:?}"));
+                rep.record(&name, vcore::case_hash(&history), || json!({"history": history}), &o);
+                continue;
+            }
+            if code != Some(0) || trace.is_empty() {
                 // the fault-free run itself failed: that is C01's business; report it here too
                 let (_, _, other) = acks_of(&root);
                 let mut o = Outcome::pass();
